@@ -286,6 +286,18 @@ def bounded(ctx, b):
     starts = [0, 1000, 5000, 2500, 100000]
     skews = [0.5, 1.0, 1.1, 4.0]
     offsets = [0, 5, -3000, -1000.5, 10 ** 6, -2600]
+    # new starts that land exactly on, or within an ulp of, zero: the test is on the ADJUSTED start
+    for skew, offset, st in [(0.7, -700000, 1000000), (0.7, -490000, 700000), (1.1, -1100, 1000), (0.1, -100, 1000), (3.3, -3300, 1000),
+                             (0.7, -700, 1000), (1.0, -1000, 1000), (0.3, -300.0, 1000), (0.6, -600, 1000), (1.9, -1900, 1000)]:
+        def edge(skew=skew, offset=offset, st=st):
+            caps = [Caption(st, st + 700, [T("edge")]), Caption(st + 5000, st + 6000, [T("later")])]
+            cs = CaptionSet({"en": CaptionList(caps)})
+            cs.adjust_caption_timing(offset=offset, rate_skew=skew)
+            exp = [(x * skew + offset, y * skew + offset, [(CaptionNode.TEXT, t)]) for x, y, t in ((st, st + 700, "edge"), (st + 5000, st + 6000, "later"))
+                   if x * skew + offset >= 0]
+            got = dump(cs)["en"]
+            return got == exp, {"start": st, "skew": skew, "offset": offset, "new_start": st * skew + offset, "got": got, "expected": exp}
+        b.guard(("adjust-edge", st, skew, offset), edge, sample={"start": st, "skew": skew, "offset": offset})
     for n in range(0, 5):
         for seq in itertools.product(starts, repeat=n):
             skew, offset = rng.choice(skews), rng.choice(offsets)
